@@ -311,31 +311,35 @@ std::string Preprocessor::expandMacros(const std::string &line) {
 
     // 文字列リテラルの位置を記録
     std::vector<std::pair<size_t, size_t>> string_ranges;
-    bool in_string = false;
-    bool escaped = false;
-    size_t string_start = 0;
+    auto compute_string_ranges = [&]() {
+        string_ranges.clear();
+        bool in_string = false;
+        bool escaped = false;
+        size_t string_start = 0;
 
-    for (size_t i = 0; i < result.length(); i++) {
-        if (escaped) {
-            escaped = false;
-            continue;
-        }
+        for (size_t i = 0; i < result.length(); i++) {
+            if (escaped) {
+                escaped = false;
+                continue;
+            }
 
-        if (result[i] == '\\') {
-            escaped = true;
-            continue;
-        }
+            if (result[i] == '\\') {
+                escaped = true;
+                continue;
+            }
 
-        if (result[i] == '"') {
-            if (!in_string) {
-                in_string = true;
-                string_start = i;
-            } else {
-                in_string = false;
-                string_ranges.push_back({string_start, i});
+            if (result[i] == '"') {
+                if (!in_string) {
+                    in_string = true;
+                    string_start = i;
+                } else {
+                    in_string = false;
+                    string_ranges.push_back({string_start, i});
+                }
             }
         }
-    }
+    };
+    compute_string_ranges();
 
     // 文字列リテラル内かどうかをチェックする関数
     auto is_in_string = [&](size_t pos) {
@@ -383,40 +387,11 @@ std::string Preprocessor::expandMacros(const std::string &line) {
                     result.replace(pos, name.length(), macro.body);
                     changed = true;
                     pos += macro.body.length();
-                    // 文字列範囲を再計算
+                    // 文字列範囲を再計算（置換で位置がずれるため、次のマクロの前に）
+                    compute_string_ranges();
                     break;
                 } else {
                     pos += name.length();
-                }
-            }
-        }
-
-        // 文字列範囲を再計算
-        if (changed) {
-            string_ranges.clear();
-            in_string = false;
-            escaped = false;
-            string_start = 0;
-
-            for (size_t i = 0; i < result.length(); i++) {
-                if (escaped) {
-                    escaped = false;
-                    continue;
-                }
-
-                if (result[i] == '\\') {
-                    escaped = true;
-                    continue;
-                }
-
-                if (result[i] == '"') {
-                    if (!in_string) {
-                        in_string = true;
-                        string_start = i;
-                    } else {
-                        in_string = false;
-                        string_ranges.push_back({string_start, i});
-                    }
                 }
             }
         }
